@@ -1557,3 +1557,15 @@ def m_sum(eng, args, kwargs, st, node):
 def calldefs_items(eng, args, kwargs, st, node):
     o = st.heap[args[0].loc]
     return [(o.fields['entries'], st)]
+
+
+# ----------------------------------------------------------------- fnmatch (glob patterns on names): uninterpreted
+import fnmatch as _fnmatch
+
+
+@func(_fnmatch.fnmatch)
+def m_fnmatch(eng, args, kwargs, st, node):
+    if len(args) == 2 and all(isinstance(a, VStr) for a in args):
+        eng.trusted_used.add('stdlib:fnmatch.fnmatch (uninterpreted predicate of name and pattern)')
+        return [(VBool(eng.model_app('py_fnmatch', [args[0].t, args[1].t], BOOL)), st)]
+    raise Undecided('fnmatch(%r)' % (args,), node)
